@@ -387,7 +387,7 @@ def random_oplists(pid, rng, n):
 # the check
 
 SIZES = {
-    "quick": {"hist": 100, "random": 60, "mc_timeout": 600, "tr_timeout": 900, "probe_cap": 20, "full_n": 4},
+    "quick": {"hist": 100, "random": 60, "mc_timeout": 420, "tr_timeout": 900, "probe_cap": 20, "full_n": 4},
     "thorough": {"hist": 1500, "random": 600, "mc_timeout": 3000, "tr_timeout": 3000, "probe_cap": 28, "full_n": 6},
 }
 CMAPS = {"quick": ["ascii", "unicode", "obo", "dcolon"], "thorough": ["ascii", "unicode", "obo", "dcolon", "tokens"]}
